@@ -506,6 +506,11 @@ func genGNCase(seed uint64, idx int, srvURL, schemas, aggs string) Case {
 			c.Routes = append(c.Routes, rt)
 		}
 	}
+	// a grafanaNet route whose key is also a string value of an earlier section (its `type`): the
+	// lookup that tells "false" from "not given" for the TOML booleans must still find the right section
+	if n := len(c.Routes); n >= 2 && c.Routes[n-1].Type == "grafanaNet" && r.Intn(2) == 0 {
+		c.Routes[n-1].Key = c.Routes[n-2].Type
+	}
 	return c
 }
 
